@@ -239,7 +239,10 @@ class Run(object):
         if engine_err:
             for o in engine_err[:10]:
                 print('CHECKER-DEFECT %s: %s' % (o.oid, (o.detail or '')[:300]))
-            return 3
+            # a violation whose failing input was replayed on the real code stands on its own; obligations the checker could not
+            # handle are reported next to it, they do not turn the verdict into "checker crashed"
+            if not any(o.status == FAILED and o.confirmed for o in self.obs):
+                return 3
         if n_viol:
             return 1
         if len(self.obs) + sum(b[1] for b in self.bulks) == 0:
@@ -288,3 +291,50 @@ def parse_args(argv):
     if tier not in ('quick', 'thorough'):
         tier = 'quick'
     return tier, seed, rest
+
+
+# ---------------------------------------------------------------------------------------
+NATIVE_WORKER = r"""
+import sys, json, pickle
+sys.dont_write_bytecode = True
+sys.path.insert(0, %(verif)r); sys.path.insert(0, %(repo)r)
+import importlib
+mod = importlib.import_module(%(module)r)
+fn = getattr(mod, %(func)r)
+jobs = pickle.load(open(sys.argv[1], 'rb'))
+out = [fn(j) for j in jobs]
+pickle.dump(out, open(sys.argv[2], 'wb'))
+"""
+
+def native_pool(module, func, jobs, nproc=None, timeout=7200):
+    """run module.func(job) for every job under the REPO'S OWN interpreter (/venv/bin/python), in nproc sub-processes; results in job order.
+       For run-time contracts whose verdict may depend on the interpreter version (frame depth, dict order, exception texts): the tooling
+       interpreter python3-vt is only needed where z3 is."""
+    import pickle
+    nproc = nproc or min(16, os.cpu_count() or 4)
+    tmp = private_tmp()
+    shards = [(i, jobs[i::nproc]) for i in range(nproc) if jobs[i::nproc]]
+    procs = []
+    env = dict(os.environ)
+    env['PYTHONPATH'] = VERIF + ':' + REPO
+    env['PYTHONDONTWRITEBYTECODE'] = '1'
+    env['TMPDIR'] = tmp
+    env['PYTHONHASHSEED'] = os.environ.get('PYTHONHASHSEED', '0')
+    code = NATIVE_WORKER % dict(verif=VERIF, repo=REPO, module=module, func=func)
+    for i, shard in shards:
+        fi = os.path.join(tmp, 'np_%d_%d.in' % (os.getpid(), i)); fo = os.path.join(tmp, 'np_%d_%d.out' % (os.getpid(), i))
+        pickle.dump(shard, open(fi, 'wb'))
+        procs.append((i, fi, fo, subprocess.Popen([VENV_PY, '-B', '-c', code, fi, fo], env=env, stdout=subprocess.PIPE, stderr=subprocess.PIPE)))
+    results = [None] * len(jobs)
+    for i, fi, fo, p in procs:
+        try:
+            so, se = p.communicate(timeout=timeout)
+        except subprocess.TimeoutExpired:
+            p.kill(); raise RuntimeError('native worker %d timed out' % i)
+        if p.returncode != 0 or not os.path.exists(fo):
+            raise RuntimeError('native worker %d failed: %s' % (i, (se or so).decode(errors='replace')[-800:]))
+        out = pickle.load(open(fo, 'rb'))
+        for k, r in enumerate(out):
+            results[i + k * nproc] = r
+        os.unlink(fi); os.unlink(fo)
+    return results
